@@ -30,11 +30,21 @@ class Ctx:
         self.floors = []           # (name, measured, floor)
         self.units = set()         # functions / files consulted
         self.assumptions = []
+        self.program_ok = {}       # key -> True: a routine was unrolled on its abstract model (sa/miniint.py) and did what is expected of it
 
     # an obligation is a named instance of a rule on a named construct
     def ob(self, rule, key, ok, msg="", where=""):
         self.obligations.append(Obligation(rule, key, ok, msg, where))
         return bool(ok)
+
+    def ob_or_program(self, prog_key, rule, key, ok, msg="", where=""):
+        """A structural clause about a routine that is also decided by unrolling it: recorded as it is when it holds, or when the program did not
+        run / did not pass; when the clause fails although the program passed, the program decides -- the clause describes one way of writing the
+        routine, the program what the routine does -- and a note is kept."""
+        if ok or not self.program_ok.get(prog_key):
+            return self.ob(rule, key, ok, msg, where)
+        self.notes.append("%s %s: structural clause not met (%s); decided by the unrolled routine" % (rule, key, msg))
+        return True
 
     def count(self, name, n=1):
         self.analysed[name] = self.analysed.get(name, 0) + n
